@@ -23,6 +23,17 @@ from sqllineage.utils.entities import ColumnQualifierTuple
 from sqllineage.utils.helpers import escape_identifier_name
 
 
+def _column_qualifier(identifier: Identifier) -> Optional[str]:
+    """
+    qualifier of a column reference: the name right before the column name, i.e. the table (or alias) also for
+    schema.table.column (sqlparse's get_parent_name() returns the part before the FIRST dot)
+    """
+    dots = [i for i, t in enumerate(identifier.tokens) if t.match(T.Punctuation, ".")]
+    if len(dots) >= 2 and dots[-1] >= 1:
+        return str(identifier.tokens[dots[-1] - 1].value)
+    return identifier.get_parent_name()
+
+
 class SqlParseTable(Table):
     @staticmethod
     def of(table: Identifier) -> Table:
@@ -81,7 +92,7 @@ class SqlParseColumn(Column):
                 real_name = column.get_real_name() or column.value
                 return Column(
                     real_name,
-                    source_columns=((real_name, column.get_parent_name()),),
+                    source_columns=((real_name, _column_qualifier(column)),),
                 )
         else:
             # Wildcard, Case, Function without alias (thus not recognized as an Identifier)
@@ -178,7 +189,9 @@ class SqlParseColumn(Column):
             else:
                 # col1 AS col2
                 source_columns = [
-                    ColumnQualifierTuple(token.get_real_name(), token.get_parent_name())
+                    ColumnQualifierTuple(
+                        token.get_real_name(), _column_qualifier(token)
+                    )
                 ]
         else:
             if token.ttype == T.Wildcard:
